@@ -9,12 +9,12 @@ EXHAUSTIVE_CLAIM = True
 TECHNIQUE = 'runtime monitoring: scope provider wrapper imposing a postponement schedule + call log; order oracle on the resolved lists; exhaustive small-scope schedules'
 RULE = ('exhaustive: lists of 1..4 (quick) / 1..6 (thorough) references x every schedule assigning each reference 0..2 (quick) '
         '/ 0..3 (thorough, up to 5 refs) Postponed answers before it resolves x target-name patterns (all distinct / with '
-        'repeats) x one or two list attributes per object and a second list object; then random schedules on lists of up '
+        'repeats) x one or two list attributes per object and a second list object; half of them also with references that touch each other (#a#b#c, no separator or blank between them); then random schedules on lists of up '
         'to 20 references; a third of the cases is repeated as a history of four loads through ONE metamodel (plain, '
         'scheduled, mirrored schedule, scheduled) with the earlier models discarded and collected. distinct = (names, schedule); non-trivial = the provider log shows a '
         'resolution order different from the textual order')
 REQUIRED = {'lists_checked': 200, 'schedules_with_reordered_resolution': 20, 'postponed_answers': 100,
-            'history_loads_one_metamodel': 200}
+            'history_loads_one_metamodel': 200, 'touching_reference_lists': 200}
 
 GRAMMAR = '''
 Model: imports*=Import defs*=Def lists+=L;
@@ -24,9 +24,35 @@ L: 'list' name=ID refs+=[Def][','] ('also' more+=[Def])? ';';
 '''
 
 
-def build(names_lists):
-    """names_lists: list of (refs names, more names). returns text and list of per-list positions."""
+GRAMMAR_TIGHT = '''
+Model: defs*=Def lists+=L;
+Def: 'def' name=TName;
+TName: /#\\w+/;
+L: 'list' name=ID refs+=[Def|TName] ('also' more+=[Def|TName])? ';';
+'''
+
+
+def build(names_lists, tight=False):
+    """names_lists: list of (refs names, more names). returns text and list of per-list positions.
+    tight: names are written #name and the references of a list touch each other (no separator, no blank)"""
     allnames = sorted({n for a, b in names_lists for n in a + b})
+    if tight:
+        text = ' '.join('def #' + n for n in allnames) + '\n'
+        layout = []
+        for li, (refs, more) in enumerate(names_lists):
+            text += 'list l%d ' % li
+            pr, pm = [], []
+            for n in refs:
+                pr.append(len(text))
+                text += '#' + n
+            if more:
+                text += ' also '
+                for n in more:
+                    pm.append(len(text))
+                    text += '#' + n
+            text += ';\n'
+            layout.append((pr, pm))
+        return text, layout
     text = ' '.join('def ' + n for n in allnames) + '\n'
     layout = []
     for li, (refs, more) in enumerate(names_lists):
@@ -49,7 +75,7 @@ def build(names_lists):
     return text, layout
 
 
-def make_mm(ctx):
+def make_mm(ctx, tight=False):
     """a metamodel whose provider follows the schedule currently stored in state['left']"""
     from textx import metamodel_from_str
     from textx.scoping import Postponed
@@ -67,15 +93,15 @@ def make_mm(ctx):
         state['log'].append(('R', pos))
         return inner(obj, attr, obj_ref)
 
-    mm = metamodel_from_str(GRAMMAR)
+    mm = metamodel_from_str(GRAMMAR_TIGHT if tight else GRAMMAR)
     mm.register_scope_providers({'*.*': provider})
     return mm, state
 
 
-def load(ctx, text, schedule, rep, files=None, mm_state=None):
+def load(ctx, text, schedule, rep, files=None, mm_state=None, tight=False):
     """schedule: dict position -> number of Postponed answers. Returns (model, log) or (None, log)."""
     from textx import TextXError
-    mm, state = mm_state or make_mm(ctx)
+    mm, state = mm_state or make_mm(ctx, tight)
     state['left'] = dict(schedule)
     state['log'] = log = []
     try:
@@ -89,7 +115,7 @@ def load(ctx, text, schedule, rep, files=None, mm_state=None):
 def lists_ok(ctx, m, names_lists, layout, schedule, text, log, rep, what=''):
     for l, (refs, more) in zip(m.lists, names_lists):
         for attr, exp in (('refs', refs), ('more', more)):
-            got = [getattr(x, 'name', repr(x)) for x in getattr(l, attr)]
+            got = [str(getattr(x, 'name', repr(x))).lstrip('#') for x in getattr(l, attr)]
             ctx.count('lists_checked')
             if got != list(exp):
                 ctx.violation(classify(got, exp), '%slist %s.%s written as %r resolved to %r (postponed answers per reference: %r)' % (
@@ -99,11 +125,11 @@ def lists_ok(ctx, m, names_lists, layout, schedule, text, log, rep, what=''):
     return True
 
 
-def history(ctx, names_lists, layout, text, schedule, rep):
+def history(ctx, names_lists, layout, text, schedule, rep, tight=False):
     """the same metamodel used for several loads, earlier models discarded (their memory is reused): a plain load, the
     scheduled load, a load with the schedule mirrored, the scheduled load again"""
     import gc
-    mm_state = make_mm(ctx)
+    mm_state = make_mm(ctx, tight)
     mx = max(schedule.values()) if schedule else 0
     mirrored = {p: mx - v for p, v in schedule.items()}
     if set(mirrored.values()) != set(range(mx + 1)):
@@ -119,8 +145,10 @@ def history(ctx, names_lists, layout, text, schedule, rep):
         gc.collect()
 
 
-def check(ctx, names_lists, sched_lists, rep, sample=False):
-    text, layout = build(names_lists)
+def check(ctx, names_lists, sched_lists, rep, sample=False, tight=False):
+    text, layout = build(names_lists, tight)
+    if tight:
+        ctx.count('touching_reference_lists')
     schedule = {}
     for (pr, pm), (sr, sm) in zip(layout, sched_lists):
         for p, s in zip(pr, sr):
@@ -133,7 +161,7 @@ def check(ctx, names_lists, sched_lists, rep, sample=False):
         # that is "unresolvable", not a schedule a provider can impose on a resolvable model
         ctx.count('schedules_skipped_round_without_progress')
         return
-    m, log = load(ctx, text, schedule, rep)
+    m, log = load(ctx, text, schedule, rep, tight=tight)
     res_order = [p for k, p in log if k == 'R']
     reordered = False
     for pr, pm in layout:
@@ -152,7 +180,7 @@ def check(ctx, names_lists, sched_lists, rep, sample=False):
         return
     del m
     if sum(len(a) + len(b) for a, b in names_lists) >= 2 and (len(text) + sum(schedule.values())) % 3 == 0:
-        history(ctx, names_lists, layout, text, schedule, rep)
+        history(ctx, names_lists, layout, text, schedule, rep, tight)
 
 
 def classify(got, exp):
@@ -183,6 +211,8 @@ def run_exh(ctx, sp, i):
     else:
         nl, sl = [(names, []), (names[::-1], names[:1])], [(sched, []), (sched[::-1], (1,))]
     check(ctx, nl, sl, {'phase': 'exh', 'tier': ctx.tier, 'i': i}, sample=(i % 97 == 5))
+    if i % 2 == 0:
+        check(ctx, nl, sl, {'phase': 'exh', 'tier': ctx.tier, 'i': i}, tight=True)
 
 
 def run_rand(ctx, i):
@@ -197,7 +227,7 @@ def run_rand(ctx, i):
         sl.append(([r.choice([0, 0, 1, 2, 5]) for _ in refs], [r.choice([0, 1, 3]) for _ in more]))
     ranks = {v: k for k, v in enumerate(sorted({x for a, b in sl for x in list(a) + list(b)}))}
     sl = [([ranks[x] for x in a], [ranks[x] for x in b]) for a, b in sl]
-    check(ctx, nl, sl, {'phase': 'rand', 'i': i}, sample=(i < 2))
+    check(ctx, nl, sl, {'phase': 'rand', 'i': i}, sample=(i < 2), tight=(i % 3 == 0))
 
 
 def run(ctx):
